@@ -16,7 +16,10 @@ FIRST_TRY = {'C01': True, 'C02': True, 'C03': False, 'C04': True, 'C05': False, 
              'C18c': True, 'C19c': False, 'C20c': False, 'C13d': False,
              'C01e': True, 'C02e': False, 'C03e': False, 'C04e': False, 'C05e': False, 'C06e': True, 'C07e': True, 'C08e': True, 'C09e': False,
              'C10e': False, 'C11e': False, 'C12e': True, 'C13e': True, 'C14e': True, 'C15e': False, 'C16e': True, 'C17e': True,
-             'C18e': True, 'C19e': True, 'C20e': False}
+             'C18e': True, 'C19e': True, 'C20e': False,
+             'C01f': True, 'C02f': False, 'C03f': False, 'C04f': True, 'C05f': False, 'C06f': True, 'C07f': True, 'C08f': False, 'C09f': True,
+             'C10f': True, 'C11f': True, 'C12f': False, 'C13f': True, 'C14f': False, 'C15f': True, 'C16f': False, 'C17f': False,
+             'C18f': True, 'C19f': False, 'C20f': True}
 REJECTED = {
     'C13c': 'not confirmed: the change only matters when dataReceived() is called again after the agent\'s own '
             'transport.loseConnection(); Twisted\'s TCP transport stops reading at that point (FileDescriptor.loseConnection -> '
@@ -46,6 +49,15 @@ STRENGTHEN = {
     'C11e': 'new "TLV tower" inputs: every registered link-state / prefix-SID TLV type nested inside itself as deep as 4000 octets allow, for 14 lengths of fixed octets in front of the sub-TLVs and 5 innermost values (missing, empty, cut short); the work budget then exposes decoding whose cost grows exponentially with the nesting depth',
     'C15e': 'the BGP-LS NLRI pool now holds the same node-descriptor octets under every Protocol-ID (1-7), so that a list can mix NLRIs whose identical descriptors must be read differently',
     'C20e': 'update payloads of 500 / 1000 prefixes (records of 10-20 KB, longer than any BGP message) in histories, torn writes (offsets up to 30000) and the exhaustive alphabet',
+    'C02f': 'caught by C13 from the start (after a manual start a dropped session must come back by itself); C02 histories now contain operator stop ... start cycles (if the last operator command of a history is a stop, the operator starts the peer before the cooperative phase)',
+    'C03f': 'arrival kinds K+S / U+S: at the instant of a peer message the operator has the agent send an UPDATE through REST; what the agent sends must not disturb its own keepalive schedule',
+    'C05f': 'the connectionLost that follows the agent\'s own close can now arrive only after the next connection has been made (late_lost; the simulator\'s deferred I/O), at most some seconds late',
+    'C08f': 'construct-only kinds vpn4/vpn6 with a label stack of 2-3 labels (C07 keeps one label because the decoder reads one)',
+    'C12f': 'the simulated transport now has a socket handle whose setsockopt(TCP_MD5SIG) refuses keys longer than 80 octets like the Linux kernel; C12 walks got md5 configurations (none, valid, 81 characters)',
+    'C14f': 'OPENs are padded with one more unknown capability so that the Optional Parameters Length is exactly 128 / 253 / 254 / 255',
+    'C16f': 'send cases got a hold-time dimension (180 / 3 / 0); on a session without timers an extra KEEPALIVE after the UPDATE is visible at once',
+    'C17f': 'the REST round trip also runs on a session whose local speaker is configured without the 4-octet-AS capability and on an iBGP session with rib on',
+    'C19f': 'sessions are now also ended by a peer NOTIFICATION, a header error and operator stop/start (the agent closes), not only by the peer closing TCP',
     'C16c': 'send cases now run with [bgp] rib on or off and with 0-2 earlier announcements on the same session whose prefixes the checked request may withdraw or re-announce (a withdraw list mixing announced and never-announced prefixes is the trigger)',
     'C19c': 'new operation: one peer UPDATE that carries IPv4 withdrawn routes together with a flowspec / VPNv4 MP_REACH or MP_UNREACH attribute; both parts must be applied (patch rebased onto the current tree because a later fix touched the same lines; original kept as patch.orig.diff)',
     'C20c': 'the peer address as configured became a dimension (IPv4, lower-case IPv6, upper-case IPv6) and a handler callback that raises is now a violation (event not logged) instead of a harness error',
@@ -76,7 +88,7 @@ def main():
     with open(os.path.join(HERE, 'seeded', 'INDEX.md'), 'w') as f:
         f.write('# Seeded changes (written by fresh sub-agents that saw only the property text)\n\n'
                 'Round 1: one change per property (C01..C20). Round 2 (ids ending in b): a second, different change for all twenty\n'
-                'properties. Rounds 3 and 4 (ids ending in c / d and e): further ones, the sub-agent being told what the earlier rounds had changed.\n'
+                'properties. Rounds 3, 4 and 5 (ids ending in c / d, e and f): further ones, the sub-agent being told what the earlier rounds had changed.\n'
                 'Each directory holds patch.diff, the agent\'s demo.py, meta.json (incl. what the verifier ran) and\n'
                 'result.txt; `tools/try_seed.sh <id>` re-runs the confirmation on scratch copies of /repo.\n\n'
                 '| id | change | needs | caught on first run | final check result |\n|---|---|---|---|---|\n')
